@@ -177,6 +177,23 @@ def recase_text(src, rng, p=0.5, keywords=True):
     return '\n'.join(out) + '\n'
 
 
+def recase_text_consistent(src, rng, p=0.7):
+    """random letter case per identifier, the same spelling at every occurrence (definition and uses agree)"""
+    spell = {}
+    out = []
+    for line in src.splitlines():
+        code, sep, com = line.partition('!')
+
+        def f(m):
+            w = m.group(0)
+            k = w.lower()
+            if k not in spell:
+                spell[k] = _recase(w, rng, p)
+            return spell[k]
+        out.append(_TOKEN.sub(f, code) + sep + com)
+    return '\n'.join(out) + '\n'
+
+
 _DECL = re.compile(r'^(\s*)((?:integer|real|logical)(?:,\s*intent\((?:in|out|inout)\))?)\s*::\s*(.+)$')
 
 
@@ -420,6 +437,51 @@ def _recase(w, rng, p):
     if r < p:
         return ''.join(c.upper() if rng.random() < 0.5 else c for c in w)
     return w
+
+
+def rename_callee_names(prog, suffix='q'):
+    """every declared name of the non-main units gets a suffix (dummies, locals, loop variables, ASSOCIATE names), so that no
+    callee name coincides with a name of the caller"""
+    main = str(prog[1])
+
+    def ren_unit(u):
+        names = {str(d[1]) for d in u[3]}
+
+        def nm(a):
+            return A(str(a) + suffix) if str(a) in names else a
+
+        def ex(e, bound):
+            if not isinstance(e, list):
+                return e
+            k = h(e)
+            if k in ('v', 'idx', 'sec'):
+                n = A(str(e[1]) + suffix) if (str(e[1]) in names or str(e[1]) in bound) else e[1]
+                return [e[0], n] + [ex(c, bound) for c in e[2:]]
+            if k == 'call':
+                return [e[0], e[1]] + [ex(c, bound) for c in e[2:]]
+            return [e[0]] + [ex(c, bound) for c in e[1:]]
+
+        def st(s, bound):
+            k = h(s)
+            if k == 'do':
+                return [s[0], nm(s[1]), ex(s[2], bound), ex(s[3], bound), ex(s[4], bound), [st(x, bound) for x in s[5]]]
+            if k == 'assoc':
+                b2 = bound | {str(b[0]) for b in s[1]}
+                return [s[0], [[A(str(b[0]) + suffix), ex(b[1], bound)] for b in s[1]], [st(x, b2) for x in s[2]]]
+            if k == 'callsub':
+                return [s[0], s[1]] + [ex(a, bound) for a in s[2:]]
+            if k == 'nop':
+                return s
+            if k == 'select':
+                return [s[0], ex(s[1], bound), [[c[0], [st(x, bound) for x in c[1]]] for c in s[2]], [st(x, bound) for x in s[3]]]
+            if k == 'while':
+                return [s[0], ex(s[1], bound), [st(x, bound) for x in s[2]]]
+            if k == 'if':
+                return [s[0], ex(s[1], bound), [st(x, bound) for x in s[2]], [st(x, bound) for x in s[3]]]
+            return [s[0]] + [ex(c, bound) for c in s[1:]]
+        decls = [[d[0], nm(d[1]), d[2], d[3], [[ex(b[0], set()), ex(b[1], set())] for b in d[4]], ex(d[5], set())] for d in u[3]]
+        return [u[0], u[1], [nm(a) for a in u[2]], decls, [st(x, set()) for x in u[4]]]
+    return fir.canon([prog[0], prog[1]] + [u if str(u[1]) == main else ren_unit(u) for u in prog[2:]])
 
 
 def recase_prog(prog, rng, p=0.6):
@@ -683,7 +745,7 @@ def gen_decl_req(rng):
     return req, any(len(s) > 1 for _, s in stmts)
 
 
-def gen_imp_req(rng):
+def gen_imp_req(rng, member_only=False):
     def gen_imps(extra_visible=()):
         imps, visible = [], list(extra_visible)
         for m, vs in IMP_MODS.items():
@@ -700,9 +762,18 @@ def gen_imp_req(rng):
     imps, vis = gen_imps()
     used = [v for v in vis if rng.random() < 0.5]
     members = []
-    for _ in range(rng.choice((0, 0, 1, 2))):
+    for _ in range(rng.choice((1, 1, 2) if member_only else (0, 0, 1, 2))):
         mi, mv = gen_imps(vis)
         members.append(([v for v in mv if rng.random() < 0.4], mi))
+    if member_only:
+        # a name the host imports explicitly and only a member uses (host association)
+        explicit = [v for m, ss in imps for v in ss]
+        if explicit:
+            v = rng.choice(explicit)
+            used = [u for u in used if u != v]
+            k = rng.randrange(len(members))
+            members[k] = (list(dict.fromkeys(members[k][0] + [v])), [(m, [x for x in ss if x != v] or ss) if (ss and v in ss and len(ss) > 1) else (m, ss)
+                                                                     for m, ss in members[k][1] if not (ss == [v])])
 
     def enc(ii):
         return [[A('use'), A(m), [A(s) for s in ss]] for m, ss in ii]
